@@ -70,7 +70,7 @@ using hf2_t = hyb_t<float,9,2>; using hf1_t = hyb_t<float,9,1>;
 using bf_t  = na::ndarray_t<utl::static_vector<float,9>, utl::static_vector<size_t,3>>;
 
 template <typename A, typename T> static inline bool mkd(A& a, const size_t* s, size_t dim, const T* d){
-  return a.resize(mk_sv<size_t,3>(s,dim)) && fill(a,d); }
+  return a.resize(mk_sv<size_t,3>(s,dim)) && (nm::size(a) == 0 || fill(a,d)); }   // an empty array has no first cell to take the address of
 
 #define ORD(f, x, y, ...) (order ? f(y, x __VA_ARGS__) : f(x, y __VA_ARGS__))
 KERNEL int K(k_eq_h2_h2)(const size_t* sa, const unsigned* da, const size_t* sb, const unsigned* db, int order){
